@@ -89,7 +89,7 @@ theorem json_valid_faithful (named numbered : Bool) (order : List (Bytes × Int)
       es.Perm (if named then expectedNamed order indices line else []) ∧
       membersDecode ms (es ++ (if numbered then expectedNumbered indices line else [])) = true := by
   have ht := json_ok_text named numbered order indices line out h
-  refine ⟨_, (if named then namedMembers order indices line else []), by rw [ht]; exact parseObj_objText _, ?_, ?_⟩
+  refine ⟨_, (if named then namedMembers order indices line else []), by rw [ht]; exact parseObj_objText _ _, ?_, ?_⟩
   · cases named with
     | false => simp
     | true =>
@@ -106,7 +106,18 @@ theorem json_valid_faithful (named numbered : Bool) (order : List (Bytes × Int)
       (if numbered then expectedNumbered indices line else []) = l
     induction l with
     | nil => simp [membersDecode]
-    | cons m l ih => simp [membersDecode, dec, decodesTo_inferred m.2, ih]
+    | cons m l ih =>
+      have e : dec inferredR m = (m.1, inferredVal m.2) := rfl
+      simp only [List.map_cons, e, membersDecode, decodesTo_inferred m.2, ih]
+      simp
+
+/-- **No panic.**  When the index slice fits the line (what every matcher returns: each group
+absent or a range inside the line) `json` always returns a text – for any name table, including
+group numbers that are out of range. -/
+theorem json_no_panic (named numbered : Bool) (order : List (Bytes × Int)) (indices : List Int)
+    (line : Bytes) (hf : FitsLine indices line) :
+    ∃ out, json named numbered order indices line = .ok out :=
+  json_total named numbered order indices line hf
 
 /-- **Deterministic.**  Two iteration orders of the same name table give the same outcome (text
 or panic), so the view can serve as an aggregation key.  (False before the fix.) -/
@@ -126,6 +137,35 @@ theorem special_deterministic (texts : List Bytes) (o₁ o₂ : List (Bytes × B
   have h1 : sortNames (o₁.map (·.1)) = sortNames (o₂.map (·.1)) := sortNames_eq_of_perm _ _ (hp.map _)
   have h2 : mapGet ([] : Bytes) o₁ = mapGet [] o₂ := mapGet_perm [] o₁ o₂ hp hnd
   simp [buildSpecialKeyJson, h1, h2]
+
+/-- The same for `rare expression`: the text parses as one object whose members are the indexed
+arguments `0, 1, …` followed by a permutation of the `-k` pairs, every value the exact string. -/
+theorem special_valid_faithful (texts : List Bytes) (order : List (Bytes × Bytes))
+    (hnd : (order.map (·.1)).Nodup) :
+    ∃ ms es, parseObj (buildSpecialKeyJson texts order) = some ms ∧ es.Perm order ∧
+      membersDecode ms (indexedMembers 0 texts ++ es) = true ∧
+      ∀ m ∈ ms, ∃ v, m.2 = .str v := by
+  refine ⟨_, (sortNames (order.map (·.1))).map fun k => (k, mapGet [] order k),
+    by rw [special_text]; exact parseObj_objText _ _, ?_, ?_, ?_⟩
+  · have hp := (sortNames_perm (order.map (·.1))).map (fun k => (k, mapGet [] order k))
+    refine hp.trans ?_
+    rw [List.map_map]
+    apply List.Perm.of_eq
+    conv => rhs; rw [← List.map_id order]
+    apply List.map_congr_left
+    intro p hp
+    simp [mapGet_mem [] order p hnd hp]
+  · show membersDecode ((specialMembers texts order).map (dec stringR)) (specialMembers texts order) = true
+    generalize specialMembers texts order = l
+    induction l with
+    | nil => simp [membersDecode]
+    | cons m l ih =>
+      have e : dec stringR m = (m.1, JVal.str m.2) := rfl
+      simp only [List.map_cons, e, membersDecode, decodesTo, ih]
+      simp
+  · intro m hm
+    obtain ⟨x, _, hx⟩ := List.mem_map.mp hm
+    exact ⟨x.2, by rw [← hx]; rfl⟩
 
 /-! ### non-vacuity -/
 
@@ -148,6 +188,14 @@ example : isNumeric (lit "10.25") = true ∧ isNumeric (lit "007") = false ∧ i
 example : parseObj [0x7b, 0x22, 0x30, 0x22, 0x3a, 0x20, 0x22, 0x01, 0x22, 0x7d] = none := by decide
 example : parseObj (lit "{\"0\": 007}") = none := by decide
 example : parseObj (lit "{\"a\"\": 1}") = none := by decide
+
+example : FitsLine [0, 7, 0, 3, 4, 7, -1, -1] (lit "007 x\ny") := by
+  intro k hk
+  have : k = 0 ∨ k = 1 ∨ k = 2 ∨ k = 3 := by simp at hk; omega
+  rcases this with h | h | h | h <;> subst h <;> decide
+
+example : (buildSpecialKeyJson [lit "x\"y"] [(lit "k", lit "007"), (lit "a", lit "\t")])
+    = lit "{\"0\": \"x\\\"y\", \"a\": \"\\t\", \"k\": \"007\"}" := by decide
 
 /-- the slice-bounds panic is reachable (so `= .ok out` is a real hypothesis) -/
 example : (json false true [] [0, 9] (lit "abc")).toBool = false := by decide
